@@ -285,10 +285,14 @@ fn gen_linkset(rng: &mut StdRng, thorough: bool) -> Vec<Vec<GStmt>> {
     }
     // shared label definitions and uses
     let mut ext_decl: Vec<Vec<String>> = vec![vec![]; nf];
+    // a shared label defined once may be put at the very start of the block placed at x0000: its address is
+    // then 0, which is also the placeholder address of an `.external` declaration of the same name
+    let zero_def: Option<usize> = if chance(rng, 20) { (0..shared.len()).find(|&si| definers[si].len() == 1) } else { None };
+    let mut zero_block: Option<(usize, usize)> = None;
     for (si, s) in shared.iter().enumerate() {
         for &f in &definers[si] {
             let bi = rng.random_range(0..bodies[f].len());
-            let k = rng.random_range(0..bodies[f][bi].len());
+            let k = if zero_def == Some(si) { zero_block = Some((f, bi)); 0 } else { rng.random_range(0..bodies[f][bi].len()) };
             let sp = asmgen::respell(rng, s);
             bodies[f][bi][k].labels.push(sp);
         }
@@ -312,10 +316,11 @@ fn gen_linkset(rng: &mut StdRng, thorough: bool) -> Vec<Vec<GStmt>> {
     let mut flat: Vec<(usize, usize)> = vec![];
     for f in 0..nf { origin.push(vec![0; bodies[f].len()]); for b in 0..bodies[f].len() { flat.push((f, b)); } }
     for i in (1..flat.len()).rev() { let j = rng.random_range(0..=i); flat.swap(i, j); }
+    if let Some(zb) = zero_block { let i = flat.iter().position(|&x| x == zb).unwrap(); flat.swap(0, i); at = 0; }
     let mut prev_end = at;
     for (n, &(f, b)) in flat.iter().enumerate() {
         let sz: u32 = bodies[f][b].iter().map(|g| g.size()).sum();
-        let mode = if n == 0 { 9 } else { rng.random_range(0..12) };
+        let mode = if n == 0 { if zero_block.is_some() { 2 } else { 9 } } else { rng.random_range(0..12) };
         let o = match mode {
             0 => prev_end,                         // touching
             1 => prev_end.saturating_sub(1),       // overlapping by one word
@@ -757,4 +762,122 @@ pub fn emit_untrusted(a: &Args, out: &mut Out) {
     }
     // the partners themselves, for the specification's Link
     out.emit(json!({"ev": "Partners", "run": 0, "objs": partners.iter().map(js::obj).collect::<Vec<_>>(), "panic": 0}));
+}
+
+// ---------------------------------------------------------------------------
+// the binary format against its specification (spec/ObjFormat.tla)
+
+fn limbs(x: u64) -> Value { json!([x & 0xFFFF, (x >> 16) & 0xFFFF, (x >> 32) & 0xFFFF, (x >> 48) & 0xFFFF]) }
+
+/// What the queries of the crate show of an object file, with 64-bit quantities as 16-bit limbs
+/// (spec/ObjFormat.tla `View`).
+fn fmt_view(o: &ObjectFile) -> Value {
+    let blocks: Vec<Value> = o.verif_block_iter()
+        .map(|(s, w)| json!({"s": s, "w": w.iter().map(|x| x.map(|v| v as i64).unwrap_or(-1)).collect::<Vec<_>>()})).collect();
+    match o.symbol_table() {
+        None => json!({"blocks": blocks, "sym": 0, "labels": [], "rel": [], "lines": [], "dbg": 0, "src": []}),
+        Some(st) => {
+            let labels: Vec<Value> = st.label_iter().map(|(k, a, x)| json!({"k": js::bytes(k.as_bytes()), "a": a, "x": x as u8,
+                "src": limbs(st.verif_label_src_start(k).unwrap_or(0) as u64)})).collect();
+            let rel: Vec<Value> = st.verif_rel_iter().map(|(a, l)| json!([a, js::bytes(l.as_bytes())])).collect();
+            let lines: Vec<Value> = st.line_iter().map(|(l, a)| json!([limbs(l as u64), a])).collect();
+            let (dbg, src) = match st.source_info() { Some(si) => (1, js::bytes(si.source().as_bytes())), None => (0, json!([])) };
+            json!({"blocks": blocks, "sym": 1, "labels": labels, "rel": rel, "lines": lines, "dbg": dbg, "src": src})
+        }
+    }
+}
+fn fmt_view_none() -> Value { json!({"blocks": [], "sym": 0, "labels": [], "rel": [], "lines": [], "dbg": 0, "src": []}) }
+
+const FMT_MAX: usize = 1800;
+
+/// `lc3v emit fmt`: (1) what the real writer produces for assembled and linked objects, to be recognised by
+/// the specification's WrittenFor; (2) arbitrary and adversarially structured byte strings through the real
+/// reader, to be compared with the specification's BinRead (accept/reject and the object), then written again.
+pub fn emit_fmt(a: &Args, out: &mut Out) {
+    let mut rng = rng_for(a, 0xF17);
+    let n = a.get_u64("n", if a.thorough() { 6000 } else { 700 });
+    // a pool of real objects
+    let mut pool: Vec<ObjectFile> = vec![];
+    for s in [".orig x6000\nPA ADD R0, R0, #1\n.fill PA\nHALT\n.end\n", ".external A\n.orig x6100\n.fill A\nX .fill x1\n.end\n",
+              ".orig x0000\nA .fill x7\n.blkw 2\n.end\n.orig xFDFE\nNOWHERE .fill 1\n.fill 2\n.end\n", "", ".orig xFDFF\n.blkw 1\n.end"] {
+        let ast = parse_ast(s).unwrap();
+        pool.push(assemble_debug(ast.clone(), s).unwrap());
+        pool.push(assemble(ast).unwrap());
+    }
+    let mut tries = 0;
+    while pool.len() < 60 && tries < 600 {
+        tries += 1;
+        let mut cfg = cfg_for(&mut rng, false, 0);
+        cfg.exotic = true;
+        let prog = asmgen::gen_program(&mut rng, &cfg);
+        let text = text_of(&prog, &mut rng);
+        if text.len() > 700 { continue; }
+        if let Ok(ast) = parse_ast(&text) { if let Ok(o) = if chance(&mut rng, 70) { assemble_debug(ast, &text) } else { assemble(ast) } { pool.push(o); } }
+    }
+    // linked objects join the pool
+    let np = pool.len();
+    for _ in 0..40 {
+        let (x, y) = (pool[rng.random_range(0..np)].clone(), pool[rng.random_range(0..np)].clone());
+        if let Ok(Ok(o)) = js::guard(move || ObjectFile::link(x, y)) { pool.push(o); }
+    }
+    let mut run = 0u64;
+    // (1) written
+    for o in &pool {
+        run += 1;
+        let r = js::guard(|| { let b = BinaryFormat::serialize(o); let d = BinaryFormat::deserialize(&b); (b, d) });
+        match r {
+            Err(()) => out.emit(json!({"ev": "Fmt", "kind": "written", "run": run, "panic": 1, "input": [], "view": fmt_view_none(), "eq": 0})),
+            Ok((b, d)) => {
+                if b.len() > FMT_MAX { continue; }
+                out.emit(json!({"ev": "Fmt", "kind": "written", "run": run, "panic": 0, "input": js::bytes(&b), "view": fmt_view(o),
+                                "eq": (d.as_ref() == Some(o)) as u8}));
+            }
+        }
+    }
+    // (2) read
+    let mut made = 0;
+    while made < n {
+        run += 1;
+        let mode = rng.random_range(0..10);
+        let mut what: Vec<&'static str> = vec![];
+        let bytes: Vec<u8> = match mode {
+            0 => {
+                what.push("random");
+                let len = *pick(&mut rng, &[0usize, 1, 7, 8, 12, 20, 40]);
+                let mut b: Vec<u8> = (0..len).map(|_| if chance(&mut rng, 60) { *pick(&mut rng, &[0u8, 1, 2, 3, 4, 255, 65, 0xC3, 0xA9, 0x80]) } else { rng.random() }).collect();
+                if chance(&mut rng, 80) { let mut h = b"obj\x21\x10\x00\x01".to_vec(); h.extend(b); b = h; }
+                b
+            }
+            1..=3 => {
+                what.push("mutated-serialization");
+                let o = &pool[rng.random_range(0..pool.len())];
+                let mut b = BinaryFormat::serialize(o); mutate_bytes(&mut rng, &mut b);
+                b
+            }
+            _ => {
+                let mut m = MalObj::of(&pool[rng.random_range(0..pool.len())]);
+                for _ in 0..rng.random_range(1..=3) { what.push(mutate_obj(&mut rng, &mut m)); }
+                if chance(&mut rng, 15) { let mut b = m.to_bin(); mutate_bytes(&mut rng, &mut b); b } else { m.to_bin() }
+            }
+        };
+        if bytes.len() > FMT_MAX { continue; }
+        made += 1;
+        let d = js::guard(|| BinaryFormat::deserialize(&bytes));
+        let mut rec = json!({"ev": "Fmt", "kind": "read", "run": run, "what": what, "panic": 0, "input": js::bytes(&bytes)});
+        match d {
+            Err(()) => { rec["deser"] = json!("panic"); rec["panic"] = json!(1); rec["view"] = fmt_view_none(); rec["again"] = json!([]); rec["again_ok"] = json!(0); }
+            Ok(None) => { rec["deser"] = json!("reject"); rec["view"] = fmt_view_none(); rec["again"] = json!([]); rec["again_ok"] = json!(0); }
+            Ok(Some(o)) => {
+                rec["deser"] = json!("accept");
+                match js::guard(|| (fmt_view(&o), BinaryFormat::serialize(&o))) {
+                    Err(()) => { rec["panic"] = json!(1); rec["view"] = fmt_view_none(); rec["again"] = json!([]); rec["again_ok"] = json!(0); }
+                    Ok((v, b2)) => {
+                        rec["view"] = v;
+                        if b2.len() <= FMT_MAX { rec["again"] = js::bytes(&b2); rec["again_ok"] = json!(1); } else { rec["again"] = json!([]); rec["again_ok"] = json!(0); }
+                    }
+                }
+            }
+        }
+        out.emit(rec);
+    }
 }
